@@ -363,8 +363,12 @@ def find_def(tree, qual):
     node = None
     for p in parts:
         node = None
+        # "name@setter": the definition of that name decorated with `@<...>.setter` (a property's setter shares its getter's name)
+        p, _, deco = p.partition("@")
         for n in body:
             if isinstance(n, (ast.ClassDef, ast.FunctionDef, ast.AsyncFunctionDef)) and n.name == p:
+                if deco and not any(ast.unparse(d).split(".")[-1] == deco for d in getattr(n, "decorator_list", [])):
+                    continue
                 node = n
                 break
         if node is None:
@@ -505,8 +509,9 @@ def locate(fn, loc):
     if kind == "has_call":
         # ("has_call", callee suffix): does the function contain, outside any nested function, a call whose callee text ends
         # with the suffix?  -> a boolean constant (e.g. "the close path cancels the timer")
-        hit = any(isinstance(n, ast.Call) and ast.unparse(n.func).endswith(loc[1]) for n in ast.walk(fn))
-        return ast.copy_location(ast.Constant(value=bool(hit)), fn)
+        # ("has_call", callee suffix, min_count): ... at least min_count such calls (e.g. "both queues are purged")
+        hits = [n for n in ast.walk(fn) if isinstance(n, ast.Call) and ast.unparse(n.func).endswith(loc[1])]
+        return ast.copy_location(ast.Constant(value=len(hits) >= (loc[2] if len(loc) > 2 else 1)), fn)
     if kind == "body_empty":
         # ("body_empty",): the function does nothing (docstring / `pass` / `return` only)  -> a boolean constant
         body = [x for x in strip_doc(fn.body) if not isinstance(x, ast.Pass) and not (isinstance(x, ast.Return) and x.value is None)]
@@ -603,6 +608,13 @@ def locate(fn, loc):
                         if loc[1] in names:
                             hits.append(h)
         return ast.copy_location(ast.Constant(len(hits) >= 1), fn)
+    if kind == "has_stmt":
+        # ("has_stmt", statement source): does the function contain (anywhere, nested blocks included, nested functions
+        # excluded) a statement whose `ast.unparse` text is exactly this?  -> a boolean constant (e.g. `self._loop_thread = None`)
+        want = ast.unparse(ast.parse(loc[1]).body[0])
+        inner = {id(x) for n in ast.walk(fn) if n is not fn and isinstance(n, (ast.FunctionDef, ast.AsyncFunctionDef, ast.Lambda)) for x in ast.walk(n)}
+        hit = any(isinstance(n, ast.stmt) and id(n) not in inner and ast.unparse(n) == want for n in ast.walk(fn))
+        return ast.copy_location(ast.Constant(value=bool(hit)), fn)
     if kind == "has_identity_test":
         # ("has_identity_test",): does the function compare objects with `is` / `is not` (other than against None)?
         hits = [n for n in ast.walk(fn) if isinstance(n, ast.Compare) and any(isinstance(o, (ast.Is, ast.IsNot)) for o in n.ops)
@@ -636,6 +648,55 @@ def locate(fn, loc):
             raise Fail("%s: no parameter %s" % (fn.name, loc[1]), fn)
         d = defaults.get(loc[1])
         return ast.copy_location(ast.Constant(d is not None and isinstance(d, ast.Constant) and d.value is None), fn)
+    if kind == "call":
+        # ("call", callee suffix, nth): the nth (source order) call whose callee text ends with the suffix, as a whole
+        # expression -- for shape pins of call sites ("which arguments, in which order")
+        hits = sorted((n for n in ast.walk(fn) if isinstance(n, ast.Call) and ast.unparse(n.func).endswith(loc[1])),
+                      key=lambda n: (n.lineno, n.col_offset))
+        if len(hits) <= loc[2]:
+            raise Fail("%s: no call #%d to %s" % (fn.name, loc[2], loc[1]), fn)
+        return hits[loc[2]]
+    if kind == "ifexp_test":
+        # ("ifexp_test", target, nth): the test of the conditional expression `a if <test> else b` assigned to `target`
+        v = assign_value(fn, loc[1], loc[2])
+        if not isinstance(v, ast.IfExp):
+            raise Fail("%s: %s is no longer assigned a conditional expression (it is `%s`)" % (fn.name, loc[1], ast.unparse(v)), v)
+        return v.test
+    if kind == "if_assigning":
+        # ("if_assigning", target, nth): the test of the nth (source order) `if` statement whose body assigns `target` --
+        # "the guard under which X is set", whatever the guard mentions
+        def assigns(n):
+            for st in n.body:
+                for x in ast.walk(st):
+                    if isinstance(x, ast.Assign) and any(ast.unparse(t) == loc[1] for t in x.targets):
+                        return True
+                    if isinstance(x, ast.AnnAssign) and ast.unparse(x.target) == loc[1] and x.value is not None:
+                        return True
+            return False
+        hits = sorted((n for n in ast.walk(fn) if isinstance(n, ast.If) and assigns(n)), key=lambda n: (n.lineno, n.col_offset))
+        if len(hits) <= loc[2]:
+            raise Fail("%s: no `if` statement #%d assigning %s" % (fn.name, loc[2], loc[1]), fn)
+        return hits[loc[2]].test
+    if kind == "signature":
+        # ("signature",): the parameter list with annotations and defaults, for shape pins of default arguments
+        return fn.args
+    if kind == "for_iter":
+        # ("for_iter", nth): the iterable of the nth (source order) `for` statement
+        hits = sorted((n for n in ast.walk(fn) if isinstance(n, ast.For)), key=lambda n: (n.lineno, n.col_offset))
+        if len(hits) <= loc[1]:
+            raise Fail("%s: no `for` loop #%d" % (fn.name, loc[1]), fn)
+        return hits[loc[1]].iter
+    if kind == "arg_elt":
+        # ("arg_elt", callee suffix, argidx, nth, eltidx): one element of a tuple/list literal passed as an argument
+        # (nth call in source order), e.g. the port in `sendto(packet, (real_addr, port or _MDNS_PORT, *v6_flow_scope))`
+        hits = sorted((n for n in ast.walk(fn) if isinstance(n, ast.Call) and ast.unparse(n.func).endswith(loc[1])),
+                      key=lambda n: (n.lineno, n.col_offset))
+        if len(hits) <= loc[3]:
+            raise Fail("%s: no call #%d to %s" % (fn.name, loc[3], loc[1]), fn)
+        c = hits[loc[3]]
+        if len(c.args) <= loc[2] or not isinstance(c.args[loc[2]], (ast.Tuple, ast.List)) or len(c.args[loc[2]].elts) <= loc[4]:
+            raise Fail("%s: argument %d of %s is not a literal with %d elements" % (fn.name, loc[2], loc[1], loc[4] + 1), c)
+        return c.args[loc[2]].elts[loc[4]]
     raise Fail("bad locator %r" % (loc,))
 
 
